@@ -1,5 +1,6 @@
 import DimodModel.Vars
 import DimodModel.VarsMore
+import DimodModel.VarsKeys
 import DimodModel.Wire
 open Wire
 
@@ -54,6 +55,46 @@ def parseOp2 (line : String) : Option VState.Op2 :=
 def showErr : Generated.VarsRules.Err → String
   | .value => "ValueError" | .index => "IndexError" | .type => "TypeError" | .key => "KeyError" | .runtime => "RuntimeError"
 
+/-- Python objects: `I:`int `B:`0|1 `F:`integral float `NI:`numpy int `NF:`numpy float `s:`hex `T:[..+..]` -/
+partial def parsePyKeyChars (cs : List Char) : Option PyKey :=
+  match cs with
+  | 'I' :: ':' :: t => (String.ofList t).toInt?.map PyKey.int
+  | 'B' :: ':' :: t => (String.ofList t).toInt?.map fun z => PyKey.bool (z != 0)
+  | 'F' :: ':' :: t => (String.ofList t).toInt?.map PyKey.float
+  | 'N' :: 'I' :: ':' :: t => (String.ofList t).toInt?.map PyKey.npInt
+  | 'N' :: 'F' :: ':' :: t => (String.ofList t).toInt?.map PyKey.npFloat
+  | 's' :: ':' :: t => some (PyKey.str (hexString t))
+  | 'T' :: ':' :: '[' :: t =>
+    match t.reverse with
+    | ']' :: r =>
+      let inner := r.reverse
+      if inner.isEmpty then some (PyKey.tup [])
+      else (splitTop inner).mapM parsePyKeyChars |>.map PyKey.tup
+    | _ => none
+  | _ => none
+
+def parsePyKey? (s : String) : Option PyKey := parsePyKeyChars s.toList
+
+/-- the object-level state after `Variables(objs)` (permissive appends as coded) -/
+def kOfList (objs : List PyKey) : KState :=
+  objs.foldl (fun k o => if k.count o then k else k.append o) { i2l := [], l2i := [], stop := 0 }
+
+/-- alias lines: `canon o`, `pyeq a b`, `kcount o1,o2,… q` (count / index of `q` in `Variables([o1, o2, …])`
+    computed on the object-level model, and the label-level state it abstracts to) -/
+def aliasLine (line : String) : Option String :=
+  match line.trimAscii.toString.splitOn " " with
+  | ["canon", o] => (parsePyKey? o).map fun k => s!"ok {showLabel (PyKey.canon k)}"
+  | ["pyeq", a, b] => do
+      let a ← parsePyKey? a; let b ← parsePyKey? b
+      pure s!"ok {if PyKey.pyEq a b then 1 else 0}"
+  | ["kcount", os, q] => do
+      let objs ← (csv os).mapM parsePyKey?
+      let q ← parsePyKey? q
+      let k := kOfList objs
+      let c := k.count q
+      pure s!"ok {if c then 1 else 0} {if c then toString (k.idxOf q) else "-"} {showState k.toV}"
+  | _ => none
+
 def step (st : VState × List Label) (line : String) : (VState × List Label) × String :=
   match line.trimAscii.toString.splitOn " " with
   | ["index", l] => match parseLabel? l with
@@ -82,6 +123,9 @@ def step (st : VState × List Label) (line : String) : (VState × List Label) ×
     | some s2 => (st, s!"ok {showState s1} / {ms} / {showState s2}")
     | none => (st, s!"err {showState s1} / {ms}")
   | _ =>
+    match aliasLine line with
+    | some out => (st, out)
+    | none =>
     match parseOp2 line with
     | none => (st, "bad-op")
     | some op =>
